@@ -20,7 +20,7 @@ import CrabModel.Dom.IntervalDomain
                                operand returns the other operand, a meet of two different constants
                                is bottom), `top` never stored;
    * what the generic model leaves abstract: `equal_size` / `get_size` on that environment, the
-     join of the environment when the BASE (not the environment) of an operand is bottom,
+     early return of join / widening when the BASE of an operand is bottom,
      `array_assign` with an unknown size of the right-hand side (`operator-=(lhs)` does nothing when
      the size of lhs is unknown too), meet (`operator&`), `set_to_top`, `operator+=` with a
      syntactic constraint system (lowering of disequations + `linear_interval_solver`), the
@@ -216,10 +216,21 @@ def arrayAssign (st : St) (lhs rhs : Nat) : St :=
     | some _ => ⟨st.sizes.remove lhs, st.base.forget (enc (.smashed lhs))⟩
     | none => st
 
-/-- `operator|` -/
-def join (a b : St) : St := ⟨SzEnv.join a.sizes b.sizes, IDom.Env.join a.base b.base⟩
-/-- `operator||` -/
-def widen (a b : St) : St := ⟨SzEnv.join a.sizes b.sizes, IDom.Env.widen a.base b.base⟩
+/-- `operator|` (and `operator|=`): an operand whose BASE is bottom is returned / ignored first
+    (its size environment is not bottom and would otherwise drop the sizes of the other operand
+    while the summaries of that operand survive in the base domain: the defect of the pinned tree,
+    repaired by commit 9186671); otherwise both components are joined -/
+def join (a b : St) : St :=
+  if a.isBottom then b else if b.isBottom then a
+  else ⟨SzEnv.join a.sizes b.sizes, IDom.Env.join a.base b.base⟩
+/-- `operator||`, same structure -/
+def widen (a b : St) : St :=
+  if a.isBottom then b else if b.isBottom then a
+  else ⟨SzEnv.join a.sizes b.sizes, IDom.Env.widen a.base b.base⟩
+/-- `widening_thresholds(other, ts)`, same structure (`constant::widening_thresholds` is `operator|`) -/
+def widenTh (ts : IDom.Thresholds) (a b : St) : St :=
+  if a.isBottom then b else if b.isBottom then a
+  else ⟨SzEnv.join a.sizes b.sizes, IDom.Env.widenTh ts a.base b.base⟩
 /-- `operator&` -/
 def meet (a b : St) : St := ⟨SzEnv.meet a.sizes b.sizes, IDom.Env.meet a.base b.base⟩
 
